@@ -189,7 +189,8 @@ def model_driver():
 
 def run_model(lines, shards=None):
     """run the extracted model on the lines, sharded over the cores"""
-    shards = shards or min(NPROC, max(1, len(lines) // 200))
+    heavy = sum(len(l) for l in lines) > 500000
+    shards = shards or (min(NPROC, max(1, len(lines))) if heavy else min(NPROC, max(1, len(lines) // 200)))
     chunks = [lines[i::shards] for i in range(shards)]
     procs = [subprocess.Popen([model_driver()], stdin=subprocess.PIPE, stdout=subprocess.PIPE, text=True) for _ in chunks]
     res = {}
